@@ -22,6 +22,12 @@ if TYPE_CHECKING:
 
 _LOGGER = logging.getLogger(__name__)
 
+#: Shortest sum of the unit vectors to the neighbours from which a direction
+#: for a new hydrogen is derived.  A shorter sum means that the neighbours
+#: cancel (linear two-neighbour centre, planar symmetric three-neighbour
+#: centre): there is no defined direction and no room for a hydrogen.
+MIN_DIRECTION_LENGTH = 0.1
+
 
 class Protonate:
     """ Protonates atoms using VSEPR theory """
@@ -307,6 +313,9 @@ class Protonate:
             avec2 = Vector(atom1=atom, atom2=atom.bonded_atoms[1]).rescale(1.0)
 
             new_a = -avec1 - avec2
+            if new_a.length() < MIN_DIRECTION_LENGTH:
+                _LOGGER.warning('Linear centre %s is not protonated', atom)
+                return
             new_a = self.set_bond_distance(new_a, atom.element)
             self.add_proton(atom, cvec+new_a)
 
@@ -338,6 +347,9 @@ class Protonate:
             avec1 = Vector(atom1=atom, atom2=atom.bonded_atoms[0]).rescale(1.0)
             avec2 = Vector(atom1=atom, atom2=atom.bonded_atoms[1]).rescale(1.0)
             axis = avec1 + avec2
+            if axis.length() < MIN_DIRECTION_LENGTH:
+                _LOGGER.warning('Linear centre %s is not protonated', atom)
+                return
             new_a = rotate_vector_around_an_axis(math.radians(90), axis,
                                                  -avec1)
             new_a = self.set_bond_distance(new_a, atom.element)
@@ -348,6 +360,9 @@ class Protonate:
             avec2 = Vector(atom1=atom, atom2=atom.bonded_atoms[1]).rescale(1.0)
             avec3 = Vector(atom1=atom, atom2=atom.bonded_atoms[2]).rescale(1.0)
             new_a = -avec1-avec2-avec3
+            if new_a.length() < MIN_DIRECTION_LENGTH:
+                _LOGGER.warning('Planar centre %s is not protonated', atom)
+                return
             new_a = self.set_bond_distance(new_a, atom.element)
             self.add_proton(atom, cvec+new_a)
 
